@@ -3,6 +3,7 @@ import RactorModel.Lemmas.AdmissionCore
 import RactorModel.Lemmas.AdmissionIds
 import RactorModel.Lemmas.AdmissionQueue
 import RactorModel.Lemmas.AdmissionOracle
+import RactorModel.Lemmas.AdmissionProgress
 import RactorModel.Model.Boxing
 import RactorModel.Lemmas.LifeC02
 import RactorModel.Lemmas.LifeWorld
@@ -325,7 +326,7 @@ theorem uninterleaved_send (g : G) (i : Nat) (h : g.threads[i]? = some [{ pc := 
         -- rejected by the status gate, by closed admission, or by the closed channel: the
         -- message is handed back, nothing else changes
         { g.sh with nextId := g.sh.nextId + 1,
-                    rets := g.sh.rets ++ [⟨.send, g.sh.nextId, .sendErr, g.sh.word.closed, okIds g.sh.rets⟩] }
+                    rets := g.sh.rets ++ [⟨.send, g.sh.nextId, .sendErr g.sh.nextId, g.sh.word.closed, okIds g.sh.rets⟩] }
       else
         { g.sh with nextId := g.sh.nextId + 1,
                     queue := g.sh.queue ++ [.msg g.sh.nextId], enq := g.sh.enq ++ [.msg g.sh.nextId],
@@ -405,7 +406,7 @@ example : ⟨.send, 0, .ok, false, []⟩ ∈ (run (init [[.send [] false], [.sen
 /-- a send racing with the receiver's exit gets its message back -/
 example : (run (init [[.send [] false]])
     [.t 0, .t 0, .t 0, .t 0, .t 0, .t 0, .rxStop, .rxClose, .t 0, .t 0]).sh.rets
-      = [⟨.send, 0, .sendErr, false, []⟩] := by decide
+      = [⟨.send, 0, .sendErr 0, false, []⟩] := by decide
 
 /-! ### (d) in cluster builds: the type check and the boxing step (`Model/Boxing.lean`) -/
 
@@ -496,6 +497,42 @@ example : Life.C02.ok [.exit .postStart .ok, .sendRet false 1 true, .polled] = f
 -- handled after the task ended
 example : Life.C02.ok [.sendRet false 1 true, .join .ok, .enter .handle (.msg 1)] = false := by decide
 
+/-! ### Liveness (round 4, wave 2): an accepted message is eventually handled
+
+`Lemmas/AdmissionProgress.lean`: ranking measure `mu` of the fine-grained model (all atomic steps of
+the send path including the CAS retry loop, nested sends inside `box_message`, drains), fair rounds. -/
+
+/-- (a, liveness) **Every send that has returned `Ok` is handled — exactly once — after `mu` fair
+rounds**, whatever else is going on (other senders in the middle of their CAS loops, ticket holders,
+drains closing admission), provided no stop / kill / failure from outside has happened or happens:
+a round schedules every worker thread and the receiver's actions at least once, in any order.
+The safety theorems above say "at most once, in order, only if Ok"; this one says it does happen. -/
+theorem every_accepted_message_is_eventually_handled (progs : List (List Op)) (sched₁ : List Tid)
+    (rounds : List (List Tid))
+    (hso : (run (init progs) sched₁).sh.stoppedByOther = false)
+    (hfair : ∀ r ∈ rounds, fairRound (run (init progs) sched₁) r)
+    (hn : mu (run (init progs) sched₁) ≤ rounds.length) :
+    ∀ r ∈ (run (init progs) sched₁).sh.rets, r.kind = .send → r.res = .ok →
+      (run (init progs) (sched₁ ++ rounds.flatten)).sh.handled.count r.id = 1 := by
+  intro r hr hk hres
+  have he := fair_reaches_endState progs sched₁ rounds hfair hn
+  have e := run_append (init progs) sched₁ rounds.flatten
+  have hso' : (run (init progs) (sched₁ ++ rounds.flatten)).sh.stoppedByOther = false := by
+    rw [e, sbo_fair _ _ rounds hfair]; exact hso
+  have hr' : r ∈ (run (init progs) (sched₁ ++ rounds.flatten)).sh.rets := by
+    obtain ⟨l, hl⟩ := (mono_run (run (init progs) sched₁) rounds.flatten).rets
+    rw [e, hl]; exact List.mem_append_left _ hr
+  have h := violations_nil_clauses _ (violations_nil (reach_run progs _) he)
+  simp only [obsOf, hso', Bool.false_or] at h
+  obtain ⟨-, -, h3, -⟩ := h
+  rw [List.all_eq_true] at h3
+  have hm := h3 r hr'
+  simp only [Ret.isOkSend, Ret.isSend, hk, hres, Bool.and_self, Bool.not_true, Bool.false_or,
+    List.contains_eq_mem, decide_eq_true_eq] at hm
+  have h1 := handled_at_most_once progs (sched₁ ++ rounds.flatten) r.id
+  have h2 := List.count_pos_iff.mpr hm
+  omega
+
 end C02
 
 #print axioms C02.refused_send_changes_nothing
@@ -523,3 +560,4 @@ end C02
 #print axioms C02.life_fifo_exactly_once_world
 #print axioms C02.life_handled_prefix_of_accepted
 #print axioms C02.life_idle_means_all_handled
+#print axioms C02.every_accepted_message_is_eventually_handled
